@@ -472,17 +472,41 @@ Theorem C07_dispatcher_roundtrip :
 Proof. exact dispatcher_roundtrip. Qed.
 Print Assumptions C07_dispatcher_roundtrip.
 
-(* ---- sequences: for every sequence of frames, from every initial host state, however the host state evolves between
-   frames (any function of the previous state and outcome — in particular the real one), no dispatcher step panics or runs
-   out of fuel, and every frame yields exactly one outcome (an error or a route) ---- *)
+(* ---- admissible outcomes and sequences.  The property lets the code reject or ignore malformed input, so the theorems
+   are stated for EVERY admissible implementation choice, not only for what /repo HEAD does: for a PPP-IPv6 (0x0057) frame whose
+   Information field is not an IPv6 datagram both "handed to the host" (HEAD) and "dropped" are admissible; for every other
+   input there is exactly one admissible outcome. ---- *)
+Theorem C07_dispatcher_admissible_total :
+  forall cfg proto payload o, frame_admissible Repaired cfg proto payload o -> is_crash o = false.
+Proof. exact frame_admissible_total. Qed.
+Print Assumptions C07_dispatcher_admissible_total.
+(* nothing is loosened for well-formed input: a real IPv6 datagram (and every frame of another protocol) has one outcome *)
+Theorem C07_dispatcher_admissible_wellformed_unique :
+  forall v cfg proto payload o, proto <> 87 \/ ipv6_wellformed payload = true ->
+  frame_admissible v cfg proto payload o -> o = handle_frame v cfg proto payload.
+Proof. exact frame_admissible_wellformed. Qed.
+Print Assumptions C07_dispatcher_admissible_wellformed_unique.
+(* for every sequence of frames, every initial host state, every state-evolution function and every choice of admissible
+   outcome at every step: no step panics or runs out of fuel *)
 Theorem C07_dispatcher_sequence_total :
-  forall next frames cfg, Forall (fun o => is_crash o = false) (disp_run next cfg frames).
-Proof. exact disp_run_total. Qed.
+  forall next frames cfg outs, adm_run next cfg frames outs -> Forall (fun o => is_crash o = false) outs.
+Proof. exact adm_run_total. Qed.
 Print Assumptions C07_dispatcher_sequence_total.
+(* /repo HEAD's policy (always hand 0x0057 to the host) is one of the admissible runs, with one outcome per frame *)
+Theorem C07_dispatcher_sequence_head_admissible :
+  forall next frames cfg, adm_run next cfg frames (disp_run next cfg frames).
+Proof. exact adm_run_head. Qed.
+Print Assumptions C07_dispatcher_sequence_head_admissible.
 Theorem C07_dispatcher_sequence_one_outcome_per_frame :
   forall next frames cfg, length (disp_run next cfg frames) = length frames.
 Proof. exact disp_run_length. Qed.
 Print Assumptions C07_dispatcher_sequence_one_outcome_per_frame.
+Example C07_dispatcher_admissible_nonvacuous :
+  ipv6_wellformed (96 :: repeat 0 39) = true /\ ipv6_wellformed (repeat 0 39) = false /\ ipv6_wellformed (64 :: repeat 0 39) = false /\
+  frame_admissible Repaired (mk_dcfg true true true) 87 [1; 2; 3] (Ok RNone) /\
+  handle_frame Repaired (mk_dcfg true true true) 87 [1; 2; 3] = Ok (RIPv6 [1; 2; 3]).
+Proof. exact ipv6_wellformed_nonvacuous. Qed.
+Print Assumptions C07_dispatcher_admissible_nonvacuous.
 
 (* ---- lock discipline of the PPPoE discovery handlers (PADI/PADR/PADT, every return path) and the session receive path
    (hand transcription [head_paths] of internal/pppoe and pkg/ppp):
